@@ -433,6 +433,21 @@ func (vr *variableResolver) resolve(ctx *ExecutionContext) (*Value, error) {
 			current = reflect.ValueOf(current.Interface())
 		}
 
+		// A *pongo2.Value may also sit behind the interface (an element of a
+		// []any) or inside the Value just unpacked (the loop variable of a
+		// loop over a list written in the template)
+		for current.IsValid() && current.Type() == typeOfValuePtr {
+			tmpValue := current.Interface().(*Value)
+			if tmpValue == nil {
+				return AsValue(nil), nil
+			}
+			current = tmpValue.val
+			isSafe = tmpValue.safe
+			if current.Kind() == reflect.Interface {
+				current = reflect.ValueOf(current.Interface())
+			}
+		}
+
 		if current.Kind() == reflect.Func && current.IsNil() {
 			// a nil function value cannot be called: treat it like any other nil
 			return AsValue(nil), nil
